@@ -32,6 +32,20 @@ def bounds(tier):
             "positions": list(POS), "formatters": ["black", "noblack", "format-command=cat", "format-command=black"]}
 
 
+_SQ, _DQ = chr(39), chr(34)
+QBLOCKS = [_SQ * 1, _SQ * 2, _SQ * 3, _SQ * 4, _SQ * 5, _SQ * 6, _DQ * 1, _DQ * 2, _DQ * 3, _DQ * 5, "\n", "a", "\\", " "]
+
+
+def _quote_runs(tier):
+    """Runs of quote characters of every length up to 6 around line ends (the triple-quoted spelling has to escape them)."""
+    out = []
+    for k in range(2, (4 if tier == "quick" else 5) + 1):
+        for t in itertools.product(QBLOCKS if k <= 4 else QBLOCKS[:11], repeat=k):
+            if "\n" in t and not any(a == b and a in ("a", "\n") for a, b in zip(t, t[1:])):
+                out.append({"s": "".join(t), "pos": "whole" if k % 2 == 0 else "list", "fmt": "black"})
+    return out
+
+
 def _strings(alpha, n):
     out = []
     for k in range(0, n + 1):
@@ -61,6 +75,7 @@ def _cases(tier):
         for core in ("", "a", "a\nb", "é"):
             for pos in ("whole", "list", "dict"):
                 cases += [{"s": p + core + q, "pos": pos, "fmt": "black"} for p in BOUNDARY for q in BOUNDARY]
+    cases += _quote_runs(tier)
     b3 = []
     for k in range(0, 4):
         b3 += [b"".join(t) for t in itertools.product(BYTES, repeat=k)]
